@@ -181,6 +181,23 @@ def loop_in_body_family():
     return progs
 
 
+def loop_in_block_family():
+    """an anonymous block inside a `% for` that reads `loop` and also has its own `% for` using `loop`."""
+    progs = []
+    for before in (True, False):
+        blk = dict(flags=set(), fm=0, dec=False, dm=0, blk=True, params=[], bsig=[], nested=[], home=0,
+                   body=([dict(k="mark", m=1, rl=True, w="s")] if before else [])
+                   + [dict(k="for", n=2, sized=True, a=[dict(k="mark", m=2, rl=True, w="s")], els=[], has_else=False),
+                      dict(k="mark", m=3, rl=True, w="s"), dict(k="text", t="t4")])
+        progs.append(dict(defs={"b9": blk}, incs=[], eh=False, fe=False, top=[], el="on",
+                          body=[dict(k="for", n=2, sized=True, a=[dict(k="block", d="b9"), dict(k="text", t="t5")], els=[], has_else=False)]))
+    return progs
+
+
+def sig_loop_block(p, x):
+    return "loop-read-in-block-with-own-for-inside-for:%s" % (x["got"]["res"] if x["clause"] == "res" else x["clause"])
+
+
 def sig_loop_body(p, x):
     return "loop-read-in-call-body-inside-for:%s" % (x["got"]["res"] if x["clause"] == "res" else x["clause"])
 
@@ -189,7 +206,7 @@ def check(run):
     thorough = run.thorough
     check_printer(run)
     maxraise = 6 if not thorough else 10
-    n = 220 if not thorough else 2500
+    n = 400 if not thorough else 2400
     progs = []
     g = rc.Gen(run.rng, control_profile())
     progs += [g.gen_prog() for _ in range(n)]
@@ -214,13 +231,14 @@ def check(run):
     rc.check_batch(run, [g.gen_prog() for _ in range(30 if not thorough else 200)], 3, "early-return")
     # `loop` inside a call body inside a for
     rc.check_batch(run, loop_in_body_family(), 4, "loop-in-call-body", signature_of=sig_loop_body)
+    rc.check_batch(run, loop_in_block_family(), 4, "loop-in-block", signature_of=sig_loop_block)
     acts = run.extra.get("action_coverage", {})
     for a in NEED:
         if not acts.get(a):
             raise MachineryError("vacuous: action %s of Render.tla never taken (%s)" % (a, acts))
     run.assumptions += [
         "conditions are constants or loop.first / loop.even; iterables are range/list/tuple/str (sized) or generators/iterators (unsized: last and reverse_index raise TypeError, observed as -1)",
-        "`loop` is not read in for-else clauses, nor (outside the dedicated family) inside call bodies that stand inside a for of the enclosing function",
+        "`loop` is not read in for-else clauses, nor (outside the dedicated families) inside call bodies that stand inside a for of the enclosing function, nor in a block under a for that has its own loop-using for",
         "% finally and while-else are rejected by the lexer and not generated; two except clauses on one try are covered by the printer model only",
         "variables assigned in <% %> are read in the same function only (name resolution across scopes is C04)",
     ]
